@@ -315,6 +315,78 @@ def aged_listing(item):
     return part
 
 
+def cross_session(item):
+    """what one session learns is the backend's truth *now*: another session replaces a file / a directory between two
+    looks (delete + upload, upload + rename into place, rmdir + mkdir)"""
+    backend, how = item
+    part = report.Partial()
+    rig = Rig(tree={"dir": {"f": b"12345", "box": {"first": b"1"}}}, backend=backend, epoch0=EPOCH)
+    w = rig.world
+    a = w.aioftp
+    problems = []
+
+    async def look(c, tag, want_size, want_box):
+        st = await c.stat("/dir/f")
+        if int(st["size"]) != want_size:
+            problems.append({"kind": "stale-stat", "via": "mlst", "when": tag, "got": st.get("size"), "want": want_size})
+        for raw in ("MLSD", "LIST"):
+            ls = {str(p): i for p, i in await c.list("/dir", raw_command=raw)}
+            if int(ls.get("/dir/f", {}).get("size", -1)) != want_size:
+                problems.append({"kind": "stale-listing", "via": raw.lower(), "when": tag,
+                                 "got": ls.get("/dir/f", {}).get("size"), "want": want_size})
+            box = sorted(str(p) for p, i in await c.list("/dir/box", raw_command=raw))
+            if box != want_box:
+                problems.append({"kind": "stale-listing", "via": raw.lower(), "when": tag, "got": box, "want": want_box})
+
+    async def main():
+        c1 = a.Client(path_io_factory=a.MemoryPathIO)
+        c2 = a.Client(path_io_factory=a.MemoryPathIO)
+        for c in (c1, c2):
+            await c.connect("127.0.0.1", 2121)
+            await c.login()
+        await look(c1, "before", 5, ["/dir/box/first"])
+        if how == "delete-upload":
+            await c2.remove("/dir/f")
+            async with c2.upload_stream("/dir/f") as st:
+                await st.write(b"123456789")
+        elif how == "rename-into-place":
+            async with c2.upload_stream("/dir/f.tmp") as st:
+                await st.write(b"123456789")
+            await c2.remove("/dir/f")
+            await c2.rename("/dir/f.tmp", "/dir/f")
+        else:
+            async with c2.upload_stream("/dir/f") as st:          # plain overwrite
+                await st.write(b"123456789")
+        await c2.remove("/dir/box")
+        await c2.make_directory("/dir/box")
+        async with c2.upload_stream("/dir/box/second") as st:
+            await st.write(b"2")
+        await look(c1, "after", 9, ["/dir/box/second"])
+        await look(c2, "after (the writer itself)", 9, ["/dir/box/second"])
+        await c1.quit()
+        await c2.quit()
+
+    try:
+        try:
+            w.run(main())
+        except Hang:
+            problems.append({"kind": "hang", "via": "?"})
+        except Exception as exc:
+            problems.append({"kind": "exception", "via": "?", "exc": repr(exc)[:300]})
+        part.evaluations += 1
+        part.traces += 1
+        part.transitions += w.net.n_events
+        k = report.fp(["cross-session", backend, how])
+        part.states.add(k)
+        part.nontrivial.add(k)
+        for p in problems[:1]:
+            part.violation({"kind": p["kind"], "via": p["via"], "backend": backend, "how": how}, {"problem": p},
+                           replay={"cross": list(item)})
+    finally:
+        rig.close()
+    return part
+
+
 def faulty_listing(item):
     """one backend call of the listing fails: the client must learn that the listing failed - a listing that is
     reported complete has every entry exactly once"""
@@ -399,12 +471,15 @@ def run(tier, seed, t0):
     faulty = [(via, k) for via in ("MLSD", "LIST") for k in range(1, 16)]
     aged = [(zone, gap, when) for zone in ZONES for gap, when in ((90, 30), (90, 89), (3600, 1800), (700, 61), (10, 5))]
     parts = report.pmap(plane_work, items) + report.pmap(wire_case, wire_items(tier)) + report.pmap(late_listing, late) \
-        + report.pmap(faulty_listing, faulty) + report.pmap(aged_listing, aged)
+        + report.pmap(faulty_listing, faulty) + report.pmap(aged_listing, aged) \
+        + report.pmap(cross_session, [(b, h) for b in ("memory", "pathio", "async")
+                                      for h in ("delete-upload", "rename-into-place", "overwrite")])
     part = report.merge_all(parts)
     set_tz("UTC")
     bounds = {"now_values": len(ns), "years": [years[0], years[-1]], "mtime_range": "now-400d .. now+3d",
               "dense_windows": "every minute within +-%s of now, now-half-year, New Year, Mar 1; stride 67 min elsewhere"
                                % ("2 d" if tier != "quick" else "6 h"),
+              "cross_session": "a second session replaces a file (3 ways) and a directory between two looks of the first; 3 backends",
               "aged_listing": "LIST verb, data connection 10 s .. 1 h later, an entry created in between (both zones)",
               "faulty_listing": "4 entries, MLSD and LIST, the k-th backend call of the listing fails, k=1..15",
               "zones": ZONES, "exempt": "|(now - mtime) - half year| < 1 day",
@@ -425,6 +500,8 @@ def replay(path):
     rp = data.get("replay") or {}
     if "faulty" in rp:
         part = faulty_listing(tuple(rp["faulty"]))
+    elif "cross" in rp:
+        part = cross_session(tuple(rp["cross"]))
     elif "aged" in rp:
         part = aged_listing(tuple(rp["aged"]))
     elif "late" in rp:
